@@ -123,8 +123,8 @@ def spellings_of(code):
     if code in intervals.SYMBOLIC:
         name = intervals.SYMBOLIC[code]
         spellings += [name, name.title(), name.upper()]
-    if code > 32 and not character.isdigit():
-        spellings.append(character)  # literal (deprecated syntax)
+    if code > 32 and not character.isdigit() and not character.isspace():
+        spellings.append(character)  # literal (deprecated syntax); white space cannot be written this way
     if code >= 32 and character not in "\"'\\":
         spellings += ['"%s"' % character, "'%s'" % character]
     if character == '"':
@@ -138,13 +138,16 @@ def spellings_of(code):
         spellings += ['"%s"' % escapes[code], "'%s'" % escapes[code]]
     if code < 256:
         spellings.append('"\\x%02x"' % code)
-    spellings.append('"\\u%04x"' % code)
+    spellings.append('"\\u%04x"' % code if code <= 0xFFFF else '"\\U%08x"' % code)
     return list(dict.fromkeys(spellings))
 
 
-def cases_spellings():
+THOROUGH_CODE_POOL = sorted(set(CODE_POOL) | set(range(1, 0x250)) | {0x3B1, 0x5D0, 0x2028, 0x20AC, 0x3000, 0xD7FF, 0xE000, 0xFEFF, 0xFFFD, 0xFFFF, 0x10000, 0x1F600, 0x10FFFF})
+
+
+def cases_spellings(tier="quick"):
     cases = []
-    for code in CODE_POOL:
+    for code in (THOROUGH_CODE_POOL if tier == "thorough" else CODE_POOL):
         character = chr(code)
         for spelling in spellings_of(code):
             props = [["Item delimiter", spelling]]
@@ -275,8 +278,8 @@ def cases_defaults():
     return cases
 
 
-def all_cases():
-    return (cases_applicability() + cases_spellings() + cases_character_sets() + cases_line_delimiters_and_encodings() + cases_numbers() + cases_pairs() + cases_defaults())
+def all_cases(tier="quick"):
+    return (cases_applicability() + cases_spellings(tier) + cases_character_sets() + cases_line_delimiters_and_encodings() + cases_numbers() + cases_pairs() + cases_defaults())
 
 
 def work(group):
@@ -296,11 +299,11 @@ def field_row(fmt):
 
 
 def run(ctx):
-    cases = all_cases()
+    cases = all_cases(ctx.tier)
     counts = {}
     for case in cases:
         counts[case["group"]] = counts.get(case["group"], 0) + 1
-    ctx.bound = {"cases per group": counts, "code points": "printable ASCII 33..126, tab, CR, LF, blank, U+00E4, U+20AC; every documented spelling of each",
+    ctx.bound = {"cases per group": counts, "code points": ("every code point U+0001..U+024F and 13 selected ones up to U+10FFFF" if ctx.tier == "thorough" else "printable ASCII 33..126, tab, CR, LF, blank, U+00E4, U+20AC") + "; every documented spelling of each",
                  "pairs": "item delimiter (25 values) x quote character (all 20) in both declaration orders; decimal x thousands; CR/LF item delimiter x line delimiter"}
     ctx.rule = ("every case is a small CID read through Cid.read; expected outcome comes from the documented tables the case was generated from (accept with effective values, refuse = InterfaceError, "
                 "or 'either' for grey zones); non-trivial = case that must be refused; states = distinct effective DataFormat settings reached")
